@@ -14,7 +14,9 @@ end, *not* run at a crash), and the real `tar` binary.
 Fault enumeration: for every scenario the event log of the sync is taken (vf.crash.dry_run) and
 every point of vf.crash.points is injected (before / after / eio; the tar subprocess is one
 event).  One more crash point lies *inside* the tar subprocess: a `tar` shim first in PATH runs
-the real tar, removes half of what was extracted and SIGKILLs the syncing process.
+the real tar, removes half of what was extracted and SIGKILLs the syncing process.  The same shim also
+makes the unpacker alone fail while the syncer lives on: {error text on stderr, killed by a signal with empty
+stderr} x {before writing anything, after a partial extraction} (fixed family in every tier + sampled).
 
 Oracle (independent): the expected new tree is computed from the scenario (path -> type, mode,
 content hash / link target), never from what the syncer produced.
@@ -377,11 +379,17 @@ class World:
         with open(os.path.join(self.shim, "tar"), "w") as f:
             f.write(
                 "#!/bin/bash\n"
+                "# VF_TAR_SHIM: killparent | fail-{early,partial}-{stderr,silent}\n"
+                "mode=\"${VF_TAR_SHIM:-killparent}\"\n"
+                "die() { case \"$mode\" in *-stderr) echo 'tar: Unexpected EOF in archive' >&2; "
+                "echo 'tar: Error is not recoverable: exiting now' >&2; exit 2;; *) kill -9 $$;; esac; }\n"
+                "case \"$mode\" in fail-early-*) die;; esac\n"
                 f"{REAL_TAR} \"$@\" || exit $?\n"
                 "dest=\"${@: -1}\"\n"
                 "n=0\n"
                 "while IFS= read -r -d '' p; do n=$((n+1)); if (( n % 2 == 0 )); then rm -f -- \"$p\"; fi; done "
                 "< <(find \"$dest\" -mindepth 1 \\( -type f -o -type l \\) -print0 | sort -z)\n"
+                "case \"$mode\" in fail-partial-*) die;; esac\n"
                 "kill -9 $PPID\n"
             )
         os.chmod(os.path.join(self.shim, "tar"), 0o755)
@@ -420,6 +428,7 @@ class World:
             os.environ["no_proxy"] = "127.0.0.1"
             if shim:
                 os.environ["PATH"] = shimdir + os.pathsep + os.environ.get("PATH", "")
+                os.environ["VF_TAR_SHIM"] = "killparent" if shim is True else shim
             tempfile.tempdir = os.path.join(live, "tmp")
             sys.stdout = open(os.devnull, "w")  # the syncer prints a progress bar
             from pkgcore.sync.tar import tar_syncer
@@ -654,6 +663,37 @@ def run_midtar(ctx, world):
     follow_up(ctx, world, case, "killed inside the tar extraction")
 
 
+TARFAIL = ("fail-early-stderr", "fail-early-silent", "fail-partial-stderr", "fail-partial-silent")
+
+
+def run_tarfail(ctx, world, mode):
+    """the unpacker fails while the syncing process lives on: before writing anything / after a partial extraction,
+    with an error text on stderr / silently (killed by a signal: non-zero status, empty stderr).  Whatever exception the
+    syncer raises, the sync must not succeed, the previous tree stays untouched and the next sync installs the new tree."""
+    sc = world.sc
+    case = {"scenario": sc, "point": "tarfail", "mode": mode}
+    world.reset()
+    res = crash.dry_run(world.sync_op(world.uri, sc["force"], shim=mode), [world.live])
+    if res.status == "died":
+        raise core.HarnessError(f"sync child died (code {res.code}) with tar shim {mode}")
+    if not any(signature(e) == "subprocess.Popen:tar" for e in res.events):
+        ctx.count("tarfail_not_reached")
+        return
+    state = world.state()
+    ctx.case(case, nontrivial=True, classes=_classes(sc) + ["point:tarfail", f"tarfail:{mode}", f"state:{state}", f"status:{res.status}"],
+             key=_key(sc) + "|tarfail|" + mode)
+    ph = _phase(sc)
+    where = f"tar {mode} (sync {res.status}{': ' + res.exc if res.exc else ''})"
+    if res.status == "completed":
+        ctx.violation(f"{ph}:unpack-failure-accepted:{mode}", case, f"{where}: sync reported success; repository path is '{state}'")
+    ok, why = world.old_untouched()
+    if state != "old" or (not ok and sc["prev"] != "absent"):
+        ctx.violation(f"{ph}:failed-unpack-touched-tree:{state}:{mode}", case, f"{where}: repository path is '{state}' {why}")
+    _persist(ctx)
+    follow_up(ctx, world, case, where)
+    _persist(ctx)
+
+
 def run_scenario(ctx, lb, sc, idx, limit=None, pick=None):
     if ctx.out_of_time():
         return
@@ -684,7 +724,11 @@ def run_scenario(ctx, lb, sc, idx, limit=None, pick=None):
                 for f in follows:
                     run_point(ctx, world, events, k, mode, f)
             if sc["server"]["kind"] == "good" and any(signature(e) == "subprocess.Popen:tar" for e in events):
-                run_midtar(ctx, world)
+                if not ctx.out_of_time():
+                    run_midtar(ctx, world)
+                for m in (TARFAIL if limit is None else (TARFAIL[pick.randrange(len(TARFAIL))],)):
+                    if not ctx.out_of_time():
+                        run_tarfail(ctx, world, m)
     finally:
         lb.srv.blobs.pop(f"b{idx}", None)
         shutil.rmtree(world.top, ignore_errors=True)
@@ -748,7 +792,18 @@ def run_tiny(ctx, lb):
 
 
 def run_core(ctx, lb, follow):
-    if ctx.out_of_time():
+    # the fixed families are small and bounded (<= 7 points each): they are not cut short by the generation guard, so
+    # that a busy machine does not silently drop them (the runner's hard cap still applies)
+    if follow == "tarfail":
+        # the unpacker dies {with, without} stderr text x {before writing, after a partial extraction}
+        for i, mode in enumerate(TARFAIL):
+            sc = CORE[FOLLOW[i % len(FOLLOW)]]
+            world = World(ctx.fresh_dir("w"), sc, lb, f"tf{i}")
+            try:
+                run_tarfail(ctx, world, mode)
+            finally:
+                lb.srv.blobs.pop(f"tf{i}", None)
+                shutil.rmtree(world.top, ignore_errors=True)
         return
     sc = CORE[follow]
     world = World(ctx.fresh_dir("w"), sc, lb, "core")
@@ -763,8 +818,6 @@ def run_core(ctx, lb, follow):
             return
         ctx.count("scenarios")
         for k, mode in core_points(res.events):
-            if ctx.out_of_time():
-                break
             run_point(ctx, world, res.events, k, mode, follow)
     finally:
         lb.srv.blobs.pop("core", None)
@@ -782,6 +835,7 @@ def plan(tier, seed):
     if not only or only == "core":
         for f in FOLLOW:  # first: kill points around the tree swap x what the next sync does
             tasks.append({"task": "core", "follow": f})
+        tasks.append({"task": "core", "follow": "tarfail"})
     for grp in ("bad", "good"):  # the faulty-server scenarios have the shortest event logs: cheap cases first
         if only and grp != only:
             continue
@@ -803,7 +857,7 @@ def warm_up(ctx, lb):
 
 
 def run_task(ctx, task, grp=None, n=0, part=0, follow=None):
-    if task != "tiny" and ctx.out_of_time():
+    if task not in ("tiny", "core") and ctx.out_of_time():
         return
     lb = Loopback()
     try:
@@ -846,6 +900,8 @@ def replay(ctx, case):
             run_complete(ctx, world)
         elif pt == "midtar":
             run_midtar(ctx, world)
+        elif pt == "tarfail":
+            run_tarfail(ctx, world, case["mode"])
         else:
             world.reset()
             res = crash.dry_run(world.sync_op(world.uri, sc["force"]), [world.live])
